@@ -72,8 +72,9 @@ def run(ck, tier):
         if r2.get("verdict", "").startswith("accept") or r2.get("verdict", "").startswith("verifier_panic"):
             ck.violation("C03 forged %s %s" % (k, "accepted" if r2["verdict"].startswith("accept") else "panics the verifier"),
                          "%s :: %s" % (starklib.cfg_signature(c), json.dumps(r2)[:400]), {"engine": "attack", "case": c, "result": r2})
-    for k, n in constructed.items():
-        ck.require(n >= 2, "attack %s was constructed consistently only %d times (vacuous)" % (k, n))
+    # vacuity is judged at the very end: a change of the protocol's challenge order also defeats the
+    # forgery constructions, and is reported by the transcript validation below, not as a tool error
+    vacuous = ["attack %s was constructed consistently only %d times (vacuous)" % (k, n) for k, n in constructed.items() if n < 2]
     ck.traces += len(cases)
     ck.evaluations += len(cases)
     ck.part("attacks", cases=len(cases), constructed=constructed, outcomes=stats)
@@ -110,6 +111,8 @@ def run(ck, tier):
                      {"engine": "attack", "case": c, "row": row})
     ck.part("transcripts", validated=len(rows), rejected=len(rejected))
     ck.sample({"transcript": {"sched": rows[0]["sched"], "verifier": [(e["e"], e["n"], e["d"][:8]) for e in rows[0]["verifier"]]}})
+    if vacuous and not ck.violations:
+        raise vf.ToolError("vacuity/coverage guard failed: " + "; ".join(vacuous))
     ck.bounds = {"attack_configs": len(cfgs), "kinds": attacks, "transcripts": len(rows)}
     ck.exhaustive = False
     ck.assumptions = ["ideal commitments/hashes in StarkProto.tla", "the forgery families of attack.rs (one per component)"]
